@@ -1,5 +1,5 @@
 """C01 - legal move generation is exactly the rules of chess (necessary conditions only)."""
-from . import attackrules
+from . import attackrules, genrules
 
 
 def run(ctx):
@@ -11,7 +11,8 @@ def run(ctx):
         "passant; it never answers Some(_) on any other path; its pinned set is built for the side to move from same-geometry x-rays",
         "N4 Checker::is_legal evaluates the attack test on the post-move occupancy with every captured man masked out (king move, "
         "en passant, other), negated; is_attacked is the reference five-term attack test (C16/Q1)",
-        "N5 generator structure: see C06 (partition flags, emitter sets, castling conditions)",
+        "N5 castling is generated (and validated) under exactly: the right, empty path, king and transit square not attacked",
+        "N6 the five generator families reach exactly the emitters of their move class; the classes partition (subset clause)",
     ]
     ctx.not_decided += ["exactness of the generated set against the rules of chess on all positions (movement geometry of every piece, "
                         "completeness of the semilegal generator): only the legality filter's structure and its agreement between the "
@@ -21,3 +22,5 @@ def run(ctx):
     attackrules.pinned_rule(ctx, facts, "N3")
     attackrules.checker_rule(ctx, facts, "N4")
     attackrules.sibling_rules(ctx, facts, "N4a")
+    genrules.castling_rule(ctx, facts, "N5")
+    genrules.partition_rule(ctx, facts, "N6")
